@@ -59,9 +59,9 @@ Shareable(rec) == Cardinality({ Norm(s) : s \in AllTrees(rec) }) = Cardinality(A
 
 \* one line per (clause, named deviation) among the positions that failed
 IdentityLines(rec, clause, bad) ==
-    LET devs == { DevOfSubtree(At(rec.e, p), rec.sg) : p \in bad } IN
+    LET devs == { DevAt(rec.e, rec.sg, p) : p \in bad } IN
     \A d \in devs :
-         LET p == CHOOSE q \in bad : DevOfSubtree(At(rec.e, q), rec.sg) = d IN
+         LET p == CHOOSE q \in bad : DevAt(rec.e, rec.sg, q) = d IN
          PrintT(ToJson([id |-> rec.id, v |-> clause, dev |-> d, var |-> 0, env |-> 0,
                         why |-> At(rec.e, p).t, path |-> p]))
 
@@ -115,7 +115,7 @@ Judge(rec) ==
        (plain.r # "ok" \/ Norm(plain.e) = Norm(predicted.e) \/
         PrintT(ToJson([id |-> rec.id, v |-> "DRIFT", what |-> "tree"])))
     /\ (plain.r # "ok" \/
-        { p \in ms : Impl(At(rec.e, p), rec.sg).same } = ms \ badP \/
+        { p \in ms : Prefixes(p) \cap ImplSameSet(rec.e, rec.sg) # {} } = ms \ badP \/
         PrintT(ToJson([id |-> rec.id, v |-> "DRIFT", what |-> "identity"])))
 
 Report == Idx <= Len(Recs) => Judge(Recs[Idx])
